@@ -295,3 +295,67 @@ product_harness!(sound_product_both_1_3_k1, 4, 1, 2, 1);
 product_harness!(sound_product_both_2_5_k4, 4, 2, 3, 4);
 product_harness!(sound_product_both_2_5_k5, 4, 2, 3, 5);
 product_harness!(sound_product_both_1_2_k2, 4, 1, 1, 2);
+
+// ---------------------------------------------------------------------------------------------
+// C10 (lemma): the termination table. A depth term is a count of separators together with a
+// termination that says whether the text it stands for begins and / or ends at a component
+// boundary (First: begins with a separator, Last: ends with one, Closed: both, Open: neither);
+// finalizing turns the count of separators into a count of components. The table
+// `Conjunction for Termination` decides the termination of a concatenation. Coalescent terms (tree
+// wildcards, which carry component counts) are outside this lemma.
+// ---------------------------------------------------------------------------------------------
+
+use crate::token::variance::invariant::{SeparatedTerm, Termination};
+
+fn any_plain_termination() -> (Termination, bool, bool) {
+    let k: u8 = kani::any();
+    kani::assume(k < 4);
+    match k {
+        0 => (Termination::Open, false, false),
+        1 => (Termination::First, true, false),
+        2 => (Termination::Last, false, true),
+        _ => (Termination::Closed, true, true),
+    }
+}
+
+/// For every pair of non-coalescent terminations whose junction is well formed (the left text
+/// does not end with a separator where the right text begins with one) and all separator counts
+/// below 2^31: the concatenation begins as the left text begins and ends as the right text ends,
+/// its separator count is the sum, and finalizing it yields the number of components of the
+/// concatenated text: separators + 1, minus one for each end that is a separator.
+#[kani::proof]
+fn sound_termination_table_invariant_depth() {
+    use crate::token::variance::invariant::Finalize;
+    let (ta, la, ra) = any_plain_termination();
+    let (tb, lb, rb) = any_plain_termination();
+    kani::assume(!(ra && lb));
+    let sa: usize = kani::any();
+    let sb: usize = kani::any();
+    kani::assume(sa < SMALL && sb < SMALL);
+    // a text that begins (ends) with a separator has at least one; Closed text of one separator
+    // is the separator itself
+    kani::assume(sa >= (la || ra) as usize && sb >= (lb || rb) as usize);
+    let a: SeparatedTerm<TokenVariance<Depth>> = SeparatedTerm(ta, Variance::Invariant(Depth::from(sa)));
+    let b: SeparatedTerm<TokenVariance<Depth>> = SeparatedTerm(tb, Variance::Invariant(Depth::from(sb)));
+    let c = ops::conjunction(a, b);
+    let expected = match (la, rb) {
+        (false, false) => Termination::Open,
+        (true, false) => Termination::First,
+        (false, true) => Termination::Last,
+        (true, true) => Termination::Closed,
+    };
+    assert!(c.0 == expected);
+    assert!(c.1 == Variance::Invariant(Depth::from(sa + sb)));
+    // a lone separator (Closed, one separator) stands for no component; otherwise every end that
+    // is a separator takes one component away from separators + 1
+    let components = (sa + sb + 1) - (la as usize) - (rb as usize);
+    let total = sa + sb;
+    let finalized = c.finalize();
+    if total >= 1 || !(la && rb) {
+        assert!(finalized == Variance::Invariant(Depth::from(components)));
+    }
+    kani::cover!(ta == Termination::First && tb == Termination::First);
+    kani::cover!(ta == Termination::First && tb == Termination::Last);
+    kani::cover!(ta == Termination::Closed && tb == Termination::Open);
+    kani::cover!(ta == Termination::Open && tb == Termination::Closed);
+}
